@@ -140,17 +140,29 @@ structure HState where
 
 def HState.init : HState := { graph := none, conf := none, version := 0, lastError := false }
 
-/-- does the update of this batch return an error?  `updateNginxConf`: ReplaceFiles, Reload, then (Plus only)
-`updateUpstreamServers`; an endpoints-only change on Plus goes straight to `updateUpstreamServers` -/
-def updateFails (plus : Bool) (ct : ChangeType) (o : Outcome) : Bool :=
-  match ct, o with
-  | .noChange, _ => false
-  | _, .ok => false
-  | .endpointsOnly, .writeFails => !plus
-  | .endpointsOnly, .reloadFails => !plus
-  | .clusterState, .writeFails => true
-  | .clusterState, .reloadFails => true
-  | _, .apiFails => plus
+/-- does `updateNginxConf` return an error?  ReplaceFiles, Reload, then (Plus only) `updateUpstreamServers` -/
+def fullUpdateFails (plus : Bool) : Outcome → Bool
+  | .ok => false
+  | .writeFails => true
+  | .reloadFails => true
+  | .apiFails => plus
+
+/-- does the update of this batch return an error?  A cluster-state change goes through `updateNginxConf`; an endpoints-only
+change goes straight to `updateUpstreamServers` (Plus API alone) only `if h.cfg.plus && h.latestReloadResult.Error == nil`
+(since fix c94173a: after a failed write/reload it goes through the files and a reload again); `prevErr` = the remembered
+`latestReloadResult.Error != nil` -/
+def updateFails (plus prevErr : Bool) (ct : ChangeType) (o : Outcome) : Bool :=
+  match ct with
+  | .noChange => false
+  | .clusterState => fullUpdateFails plus o
+  | .endpointsOnly => if plus && !prevErr then o == .apiFails else fullUpdateFails plus o
+
+/-- PRE-FIX variant (before c94173a; NOT the code): the Plus endpoints-only arm did not consult the remembered result -/
+def updateFailsPreFix (plus : Bool) (ct : ChangeType) (o : Outcome) : Bool :=
+  match ct with
+  | .noChange => false
+  | .clusterState => fullUpdateFails plus o
+  | .endpointsOnly => if plus then o == .apiFails else fullUpdateFails plus o
 
 /-- `HandleEventBatch` (current code): `NoChange` returns early; otherwise `h.version++`, `cfg := BuildConfiguration(gr, …)`,
 `h.setLatestConfiguration(&cfg)`, THEN the update; its error only goes to `latestReloadResult` -/
@@ -161,7 +173,7 @@ def handleBatch (plus : Bool) (st : HState) (b : Batch) : HState :=
     { graph := some b.snap
       conf := some (buildConf b.snap (st.version + 1))
       version := st.version + 1
-      lastError := updateFails plus ct b.outcome }
+      lastError := updateFails plus st.lastError ct b.outcome }
 
 def runBatches (plus : Bool) (bs : List Batch) : HState := bs.foldl (handleBatch plus) .init
 
@@ -170,7 +182,7 @@ def handleBatchSuccessOnly (plus : Bool) (st : HState) (b : Batch) : HState :=
   match b.change with
   | .noChange => st
   | ct =>
-    let failed := updateFails plus ct b.outcome
+    let failed := updateFails plus st.lastError ct b.outcome
     { graph := some b.snap
       conf := if failed then st.conf else some (buildConf b.snap (st.version + 1))
       version := st.version + 1
